@@ -17,6 +17,17 @@ CHECKS = {
         note="Trusted: the reference containers in h/c19_containers.c, gcc's ASan/UBSan. Not covered: sequences longer than the exhaustive bound "
              "that are not hit by the random generator; hash functions other than the four used.",
         design="3/C19"),
+    "C12": dict(
+        technique=TECH + "round-trip identity + exhaustive/sampled stream-corruption oracle under ASan/UBSan",
+        text="The real encoder/decoder of mir-reduce.h run under ASan+UBSan on every payload over small alphabets up to the stated lengths plus "
+             "generated long/periodic/incompressible/multi-buffer payloads; each encoding is decoded back (identity) and then every truncation, "
+             "extension, all 255 substitutions per position (short streams), deletions, insertions and swaps are decoded and must be reported as "
+             "failures without any sanitizer report; grammar-aware crafted streams attack the decoder's bounds. Accepted damaged streams are split "
+             "by comparing payloads (identical / different) and by recomputing the format's check hash.",
+        note="Trusted: payload comparison, gcc ASan/UBSan (heap block of struct reduce_data is exactly sized so overruns of buf[] hit a red zone). "
+             "Two open known findings (equivalent reference offsets; mir_hash_strict collisions on repeated-byte blocks) are announced, not masked: "
+             "any other accepted damaged stream is a violation. Long streams are mutated by sampling, not exhaustively.",
+        design="3/C12"),
 }
 
 REASON_TODO = "check not built yet (work in progress; DESIGN.md section 3 describes the planned monitor)"
